@@ -3,7 +3,7 @@ From Coq Require Import Reals List String Bool.
 From V.base Require Import Num.
 From V.gen Require Import Distributions.
 From V.model Require Import DistHand Conditional ScipyDist.
-From V.proofs Require Import DistProofs DistDocProofs CondProofs ScipyDistProofs.
+From V.proofs Require Import DistProofs DistDocProofs DistConsistency CondProofs ScipyDistProofs.
 Import ListNotations.
 Local Open Scope R_scope.
 Local Open Scope string_scope.
@@ -385,29 +385,277 @@ Theorem C05_EW_pdf_inside :
          |} x.
 Proof. exact (@EW_pdf_inside). Qed.
 
-(* icdf(cdf(x)) = x: same parameter list, scipy's contract *)
-Theorem C05_icdf_cdf :
-  forall (sts : call R -> R -> R) (fam : string) (ps : list R),
-       (forall x : R,
-        sts {| c_family := fam; c_method := "ppf"; c_params := ps |}
-          (sts {| c_family := fam; c_method := "cdf"; c_params := ps |} x) = x) ->
-       forall x : R,
-       sts {| c_family := fam; c_method := "ppf"; c_params := ps |}
-         (sts {| c_family := fam; c_method := "cdf"; c_params := ps |} x) = x.
-Proof. exact (@icdf_cdf_roundtrip). Qed.
-
-(* cdf(icdf(p)) = p *)
-Theorem C05_cdf_icdf :
-  forall (sts : call R -> R -> R) (fam : string) (ps : list R),
-       (forall p : R,
+(* Weibull, any subset of explicit parameters, admissible (alpha, beta > 0): icdf(cdf(x)) = x on the support -- from the GENERATED parameter map and scipy's documented weibull_min cdf/ppf formulas (hypotheses), the inverse relation itself is PROVED (exact reals) *)
+Theorem C05_W_icdf_cdf :
+  forall sts : call R -> R -> R,
+       (forall x c loc scale : R,
+        loc < x ->
+        sts {| c_family := "weibull_min"; c_method := "cdf"; c_params := [c; loc; scale] |} x =
+        Wcdf c loc scale x) ->
+       (forall p c loc scale : R,
         0 < p < 1 ->
-        sts {| c_family := fam; c_method := "cdf"; c_params := ps |}
-          (sts {| c_family := fam; c_method := "ppf"; c_params := ps |} p) = p) ->
+        sts {| c_family := "weibull_min"; c_method := "ppf"; c_params := [c; loc; scale] |} p =
+        Wppf c loc scale p) ->
+       forall (s : WeibullDistribution) (a b g : option R),
+       0 < ov a (WeibullDistribution_alpha s) ->
+       0 < ov b (WeibullDistribution_beta s) ->
+       forall x : R,
+       ov g (WeibullDistribution_gamma s) < x ->
+       eval sts (WeibullDistribution_icdf s a b g) (eval sts (WeibullDistribution_cdf s a b g) x) = x.
+Proof. exact (@W_virocon_icdf_cdf). Qed.
+
+(* ... icdf(p) lies in the support and cdf(icdf(p)) = p for 0 < p < 1 (hence the cdf takes every value of (0, 1): it runs from 0 to 1) *)
+Theorem C05_W_cdf_icdf :
+  forall sts : call R -> R -> R,
+       (forall x c loc scale : R,
+        loc < x ->
+        sts {| c_family := "weibull_min"; c_method := "cdf"; c_params := [c; loc; scale] |} x =
+        Wcdf c loc scale x) ->
+       (forall p c loc scale : R,
+        0 < p < 1 ->
+        sts {| c_family := "weibull_min"; c_method := "ppf"; c_params := [c; loc; scale] |} p =
+        Wppf c loc scale p) ->
+       forall (s : WeibullDistribution) (a b g : option R),
+       0 < ov a (WeibullDistribution_alpha s) ->
+       0 < ov b (WeibullDistribution_beta s) ->
        forall p : R,
        0 < p < 1 ->
-       sts {| c_family := fam; c_method := "cdf"; c_params := ps |}
-         (sts {| c_family := fam; c_method := "ppf"; c_params := ps |} p) = p.
-Proof. exact (@cdf_icdf_roundtrip). Qed.
+       ov g (WeibullDistribution_gamma s) < eval sts (WeibullDistribution_icdf s a b g) p /\
+       eval sts (WeibullDistribution_cdf s a b g) (eval sts (WeibullDistribution_icdf s a b g) p) = p.
+Proof. exact (@W_virocon_cdf_icdf). Qed.
+
+(* ... 0 < cdf(x) < 1 on the support *)
+Theorem C05_W_cdf_range :
+  forall sts : call R -> R -> R,
+       (forall x c loc scale : R,
+        loc < x ->
+        sts {| c_family := "weibull_min"; c_method := "cdf"; c_params := [c; loc; scale] |} x =
+        Wcdf c loc scale x) ->
+       forall (s : WeibullDistribution) (a b g : option R),
+       0 < ov a (WeibullDistribution_alpha s) ->
+       0 < ov b (WeibullDistribution_beta s) ->
+       forall x : R,
+       ov g (WeibullDistribution_gamma s) < x -> 0 < eval sts (WeibullDistribution_cdf s a b g) x < 1.
+Proof. exact (@W_virocon_cdf_range). Qed.
+
+(* ... the cdf is strictly increasing on the support *)
+Theorem C05_W_cdf_increasing :
+  forall sts : call R -> R -> R,
+       (forall x c loc scale : R,
+        loc < x ->
+        sts {| c_family := "weibull_min"; c_method := "cdf"; c_params := [c; loc; scale] |} x =
+        Wcdf c loc scale x) ->
+       forall (s : WeibullDistribution) (a b g : option R),
+       0 < ov a (WeibullDistribution_alpha s) ->
+       0 < ov b (WeibullDistribution_beta s) ->
+       forall x y : R,
+       ov g (WeibullDistribution_gamma s) < x ->
+       x < y -> eval sts (WeibullDistribution_cdf s a b g) x < eval sts (WeibullDistribution_cdf s a b g) y.
+Proof. exact (@W_virocon_cdf_increasing). Qed.
+
+(* ... the pdf is positive on the support *)
+Theorem C05_W_pdf_positive :
+  forall sts : call R -> R -> R,
+       (forall x c loc scale : R,
+        loc < x ->
+        sts {| c_family := "weibull_min"; c_method := "pdf"; c_params := [c; loc; scale] |} x =
+        Wpdf c loc scale x) ->
+       forall (s : WeibullDistribution) (a b g : option R),
+       0 < ov a (WeibullDistribution_alpha s) ->
+       0 < ov b (WeibullDistribution_beta s) ->
+       forall x : R,
+       ov g (WeibullDistribution_gamma s) < x -> 0 < eval sts (WeibullDistribution_pdf s a b g) x.
+Proof. exact (@W_virocon_pdf_positive). Qed.
+
+(* ... and the pdf is the derivative of the cdf (stdlib derivable_pt_lim; proved with Coquelicot's auto_derive) *)
+Theorem C05_W_pdf_is_derivative_of_cdf :
+  forall sts : call R -> R -> R,
+       (forall x c loc scale : R,
+        loc < x ->
+        sts {| c_family := "weibull_min"; c_method := "cdf"; c_params := [c; loc; scale] |} x =
+        Wcdf c loc scale x) ->
+       (forall x c loc scale : R,
+        loc < x ->
+        sts {| c_family := "weibull_min"; c_method := "pdf"; c_params := [c; loc; scale] |} x =
+        Wpdf c loc scale x) ->
+       forall (s : WeibullDistribution) (a b g : option R),
+       0 < ov a (WeibullDistribution_alpha s) ->
+       0 < ov b (WeibullDistribution_beta s) ->
+       forall x : R,
+       ov g (WeibullDistribution_gamma s) < x ->
+       derivable_pt_lim (eval sts (WeibullDistribution_cdf s a b g)) x
+         (eval sts (WeibullDistribution_pdf s a b g) x).
+Proof. exact (@W_virocon_pdf_derivative). Qed.
+
+(* exponentiated Weibull (alpha, beta, delta > 0), any subset of explicit parameters: icdf(cdf(x)) = x for x > 0 *)
+Theorem C05_EW_icdf_cdf :
+  forall sts : call R -> R -> R,
+       (forall x a c loc scale : R,
+        loc < x ->
+        sts {| c_family := "exponweib"; c_method := "cdf"; c_params := [a; c; loc; scale] |} x =
+        EWcdf a c loc scale x) ->
+       (forall p a c loc scale : R,
+        0 < p < 1 ->
+        sts {| c_family := "exponweib"; c_method := "ppf"; c_params := [a; c; loc; scale] |} p =
+        EWppf a c loc scale p) ->
+       forall (s : ExponentiatedWeibullDistribution) (a b d : option R),
+       0 < ov a (ExponentiatedWeibullDistribution_alpha s) ->
+       0 < ov b (ExponentiatedWeibullDistribution_beta s) ->
+       0 < ov d (ExponentiatedWeibullDistribution_delta s) ->
+       forall x : R,
+       0 < x ->
+       eval sts (ExponentiatedWeibullDistribution_icdf RN s a b d)
+         (eval sts (ExponentiatedWeibullDistribution_cdf RN s a b d) x) = x.
+Proof. exact (@EW_virocon_icdf_cdf). Qed.
+
+(* ... 0 < icdf(p) and cdf(icdf(p)) = p for 0 < p < 1 *)
+Theorem C05_EW_cdf_icdf :
+  forall sts : call R -> R -> R,
+       (forall x a c loc scale : R,
+        loc < x ->
+        sts {| c_family := "exponweib"; c_method := "cdf"; c_params := [a; c; loc; scale] |} x =
+        EWcdf a c loc scale x) ->
+       (forall p a c loc scale : R,
+        0 < p < 1 ->
+        sts {| c_family := "exponweib"; c_method := "ppf"; c_params := [a; c; loc; scale] |} p =
+        EWppf a c loc scale p) ->
+       forall (s : ExponentiatedWeibullDistribution) (a b d : option R),
+       0 < ov a (ExponentiatedWeibullDistribution_alpha s) ->
+       0 < ov b (ExponentiatedWeibullDistribution_beta s) ->
+       0 < ov d (ExponentiatedWeibullDistribution_delta s) ->
+       forall p : R,
+       0 < p < 1 ->
+       0 < eval sts (ExponentiatedWeibullDistribution_icdf RN s a b d) p /\
+       eval sts (ExponentiatedWeibullDistribution_cdf RN s a b d)
+         (eval sts (ExponentiatedWeibullDistribution_icdf RN s a b d) p) = p.
+Proof. exact (@EW_virocon_cdf_icdf). Qed.
+
+(* ... 0 < cdf(x) < 1 for x > 0 *)
+Theorem C05_EW_cdf_range :
+  forall sts : call R -> R -> R,
+       (forall x a c loc scale : R,
+        loc < x ->
+        sts {| c_family := "exponweib"; c_method := "cdf"; c_params := [a; c; loc; scale] |} x =
+        EWcdf a c loc scale x) ->
+       forall (s : ExponentiatedWeibullDistribution) (a b d : option R),
+       0 < ov a (ExponentiatedWeibullDistribution_alpha s) ->
+       0 < ov b (ExponentiatedWeibullDistribution_beta s) ->
+       0 < ov d (ExponentiatedWeibullDistribution_delta s) ->
+       forall x : R, 0 < x -> 0 < eval sts (ExponentiatedWeibullDistribution_cdf RN s a b d) x < 1.
+Proof. exact (@EW_virocon_cdf_range). Qed.
+
+(* ... strictly increasing for x > 0 *)
+Theorem C05_EW_cdf_increasing :
+  forall sts : call R -> R -> R,
+       (forall x a c loc scale : R,
+        loc < x ->
+        sts {| c_family := "exponweib"; c_method := "cdf"; c_params := [a; c; loc; scale] |} x =
+        EWcdf a c loc scale x) ->
+       forall (s : ExponentiatedWeibullDistribution) (a b d : option R),
+       0 < ov a (ExponentiatedWeibullDistribution_alpha s) ->
+       0 < ov b (ExponentiatedWeibullDistribution_beta s) ->
+       0 < ov d (ExponentiatedWeibullDistribution_delta s) ->
+       forall x y : R,
+       0 < x ->
+       x < y ->
+       eval sts (ExponentiatedWeibullDistribution_cdf RN s a b d) x <
+       eval sts (ExponentiatedWeibullDistribution_cdf RN s a b d) y.
+Proof. exact (@EW_virocon_cdf_increasing). Qed.
+
+(* ... the pdf (with virocon's own guard for x <= 0) is non-negative everywhere *)
+Theorem C05_EW_pdf_nonnegative :
+  forall sts : call R -> R -> R,
+       (forall x a c loc scale : R,
+        loc < x ->
+        sts {| c_family := "exponweib"; c_method := "pdf"; c_params := [a; c; loc; scale] |} x =
+        EWpdf a c loc scale x) ->
+       forall (s : ExponentiatedWeibullDistribution) (a b d : option R),
+       0 < ov a (ExponentiatedWeibullDistribution_alpha s) ->
+       0 < ov b (ExponentiatedWeibullDistribution_beta s) ->
+       0 < ov d (ExponentiatedWeibullDistribution_delta s) -> forall x : R, 0 <= EW_pdf RN sts s x a b d.
+Proof. exact (@EW_virocon_pdf_nonneg). Qed.
+
+(* ... and is the derivative of the cdf for x > 0 *)
+Theorem C05_EW_pdf_is_derivative_of_cdf :
+  forall sts : call R -> R -> R,
+       (forall x a c loc scale : R,
+        loc < x ->
+        sts {| c_family := "exponweib"; c_method := "cdf"; c_params := [a; c; loc; scale] |} x =
+        EWcdf a c loc scale x) ->
+       (forall x a c loc scale : R,
+        loc < x ->
+        sts {| c_family := "exponweib"; c_method := "pdf"; c_params := [a; c; loc; scale] |} x =
+        EWpdf a c loc scale x) ->
+       forall (s : ExponentiatedWeibullDistribution) (a b d : option R),
+       0 < ov a (ExponentiatedWeibullDistribution_alpha s) ->
+       0 < ov b (ExponentiatedWeibullDistribution_beta s) ->
+       0 < ov d (ExponentiatedWeibullDistribution_delta s) ->
+       forall x : R,
+       0 < x ->
+       derivable_pt_lim (eval sts (ExponentiatedWeibullDistribution_cdf RN s a b d)) x
+         (EW_pdf RN sts s x a b d).
+Proof. exact (@EW_virocon_pdf_derivative). Qed.
+
+(* Normal (sigma > 0), any subset of explicit parameters: icdf(cdf(x)) = x, given that scipy's norm is the loc-scale family of a standard cdf Phi with inverse PhiInv *)
+Theorem C05_N_icdf_cdf :
+  forall (sts : call R -> R -> R) (Phi PhiInv : R -> R),
+       (forall x loc scale : R,
+        sts {| c_family := "norm"; c_method := "cdf"; c_params := [loc; scale] |} x = LScdf Phi loc scale x) ->
+       (forall p loc scale : R,
+        0 < p < 1 ->
+        sts {| c_family := "norm"; c_method := "ppf"; c_params := [loc; scale] |} p =
+        LSppf PhiInv loc scale p) ->
+       (forall z : R, PhiInv (Phi z) = z) ->
+       (forall z : R, 0 < Phi z < 1) ->
+       forall (s : NormalDistribution) (m sg : option R),
+       0 < ov sg (NormalDistribution_sigma s) ->
+       forall x : R,
+       eval sts (NormalDistribution_icdf s m sg) (eval sts (NormalDistribution_cdf s m sg) x) = x.
+Proof. exact (@N_virocon_icdf_cdf). Qed.
+
+(* ... cdf(icdf(p)) = p for 0 < p < 1 *)
+Theorem C05_N_cdf_icdf :
+  forall (sts : call R -> R -> R) (Phi PhiInv : R -> R),
+       (forall x loc scale : R,
+        sts {| c_family := "norm"; c_method := "cdf"; c_params := [loc; scale] |} x = LScdf Phi loc scale x) ->
+       (forall p loc scale : R,
+        0 < p < 1 ->
+        sts {| c_family := "norm"; c_method := "ppf"; c_params := [loc; scale] |} p =
+        LSppf PhiInv loc scale p) ->
+       (forall p : R, 0 < p < 1 -> Phi (PhiInv p) = p) ->
+       forall (s : NormalDistribution) (m sg : option R),
+       0 < ov sg (NormalDistribution_sigma s) ->
+       forall p : R,
+       0 < p < 1 ->
+       eval sts (NormalDistribution_cdf s m sg) (eval sts (NormalDistribution_icdf s m sg) p) = p.
+Proof. exact (@N_virocon_cdf_icdf). Qed.
+
+(* ... the cdf is non-decreasing *)
+Theorem C05_N_cdf_monotone :
+  forall (sts : call R -> R -> R) (Phi : R -> R),
+       (forall x loc scale : R,
+        sts {| c_family := "norm"; c_method := "cdf"; c_params := [loc; scale] |} x = LScdf Phi loc scale x) ->
+       (forall z1 z2 : R, z1 < z2 -> Phi z1 <= Phi z2) ->
+       forall (s : NormalDistribution) (m sg : option R),
+       0 < ov sg (NormalDistribution_sigma s) ->
+       forall x y : R,
+       x < y -> eval sts (NormalDistribution_cdf s m sg) x <= eval sts (NormalDistribution_cdf s m sg) y.
+Proof. exact (@N_virocon_cdf_monotone). Qed.
+
+(* any loc-scale family F0((x-loc)/scale) with quantile function loc + scale*Q0(p), scale > 0: ppf(cdf(x)) = x *)
+Theorem C05_locscale_ppf_cdf :
+  forall F0 Q0 : R -> R,
+       (forall z : R, Q0 (F0 z) = z) ->
+       forall loc scale : R, 0 < scale -> forall x : R, LSppf Q0 loc scale (LScdf F0 loc scale x) = x.
+Proof. exact (@LS_ppf_cdf). Qed.
+
+(* ... cdf(ppf(p)) = p *)
+Theorem C05_locscale_cdf_ppf :
+  forall F0 Q0 : R -> R,
+       (forall p : R, 0 < p < 1 -> F0 (Q0 p) = p) ->
+       forall loc scale : R,
+       0 < scale -> forall p : R, 0 < p < 1 -> LScdf F0 loc scale (LSppf Q0 loc scale p) = p.
+Proof. exact (@LS_cdf_ppf). Qed.
 
 (* ScipyDistribution subclasses (hand model, tied by correspondence): positional explicit parameters == instance storing the merged values *)
 Theorem C05_SD_override_positional :
@@ -451,6 +699,13 @@ Example C05_nonvacuous :
   c_params (GeneralizedGammaDistribution_cdf RN (GeneralizedGammaDistribution_init 1 1 4 None None None) None (Some 2) None) = [1; 2; 0; 1 / 4].
 Proof. split; reflexivity. Qed.
 
+(* non-vacuity of the consistency theorems: the documented weibull_min formulas themselves are a scipy oracle meeting the
+   hypotheses, Weibull(alpha=2, beta=3, gamma=1) is admissible and 4 lies in its support *)
+Example C05_consistency_nonvacuous :
+  let s := WeibullDistribution_init 2 3 1 None None None in
+  eval sts_doc (WeibullDistribution_icdf s None None None) (eval sts_doc (WeibullDistribution_cdf s None None None) 4) = 4.
+Proof. exact W_consistency_nonvacuous. Qed.
+
 Print Assumptions C05_W_override.
 Print Assumptions C05_W_one_map.
 Print Assumptions C05_LN_override.
@@ -476,8 +731,23 @@ Print Assumptions C05_gengamma_documented.
 Print Assumptions C05_vonmises_documented.
 Print Assumptions C05_EW_pdf_zero_outside.
 Print Assumptions C05_EW_pdf_inside.
-Print Assumptions C05_icdf_cdf.
-Print Assumptions C05_cdf_icdf.
+Print Assumptions C05_W_icdf_cdf.
+Print Assumptions C05_W_cdf_icdf.
+Print Assumptions C05_W_cdf_range.
+Print Assumptions C05_W_cdf_increasing.
+Print Assumptions C05_W_pdf_positive.
+Print Assumptions C05_W_pdf_is_derivative_of_cdf.
+Print Assumptions C05_EW_icdf_cdf.
+Print Assumptions C05_EW_cdf_icdf.
+Print Assumptions C05_EW_cdf_range.
+Print Assumptions C05_EW_cdf_increasing.
+Print Assumptions C05_EW_pdf_nonnegative.
+Print Assumptions C05_EW_pdf_is_derivative_of_cdf.
+Print Assumptions C05_N_icdf_cdf.
+Print Assumptions C05_N_cdf_icdf.
+Print Assumptions C05_N_cdf_monotone.
+Print Assumptions C05_locscale_ppf_cdf.
+Print Assumptions C05_locscale_cdf_ppf.
 Print Assumptions C05_SD_override_positional.
 Print Assumptions C05_SD_positional_value.
 Print Assumptions C05_SD_positional_none_keeps.
